@@ -50,6 +50,35 @@ Proof.
     rewrite Et in Nt. now rewrite (untainted_never_fails _ _ _ _ _ R2 H2 Nt).
 Qed.
 
+(* a warm cache (every configured type parsed without error, which presupposes a configuration
+   without malformed relations): no call ever returns an error, whatever the schedule *)
+Definition well_formed_cfg : Prop := forall t r, In r (rels cfg t) -> r_ok r = true.
+
+Lemma E_warm progs : well_formed_cfg -> E cfg (warm cfg progs).
+Proof.
+  intro Wf. split.
+  - intro g. cbn. split; [constructor|exact I].
+  - intro s. cbn -[Nat.ltb]. destruct (Nat.ltb s (length cfg)); split; cbn; try discriminate; try (intros; lia).
+    intros j x _ Hx. apply (Wf s x). eapply nth_error_In; eauto.
+Qed.
+
+Lemma no_taint : well_formed_cfg -> forall t, ~ tainted cfg t.
+Proof.
+  intros Wf t T. induction T as [t (r & Hr & Hok)|t r Hr _ IH]; [|exact IH].
+  rewrite (Wf t r Hr) in Hok. discriminate.
+Qed.
+
+Lemma warm_no_errors progs sched st g rr :
+  well_formed_cfg -> run cfg (warm cfg progs) sched = Some st -> In rr (t_rets (st_thr st g)) ->
+  rt_err rr = false.
+Proof.
+  intros Wf R Hin.
+  assert (Iv : inv cfg st) by (eapply run_inv; [apply inv_warm|exact R]).
+  assert (He : E cfg st) by (eapply E_run; [apply inv_warm|apply E_warm; exact Wf|exact R]).
+  destruct (rt_err rr) eqn:Er; [exfalso|reflexivity].
+  exact (no_taint Wf _ (error_means_tainted cfg _ _ _ Iv He Hin Er)).
+Qed.
+
 (* the boolean twins C07_Check evaluates on the observed returns *)
 Lemma malformedb_spec t : malformedb cfg t = true <-> malformed cfg t.
 Proof.
